@@ -39,6 +39,14 @@ SCALE_TEMPLATES = [
     "x := 0\nfor i := 0; i < @N@; i++ { x = (i % 2 == 0 && 3) || 4 }\nx > 0",
     "x := 0\nfor i := 0; i < @N@; i++ { m := {\"k\": 1}\n m[\"k\"] += 1\n m.k = 3\n x = m.k }\nx",
     "x := 0\nfor i := 0; i < @N@; i++ { if i % 3 == 0 { x = 1 } else if i % 3 == 1 { x = 2 } else { x = 3 } }\nx > 0",
+    "x := 0\ni := 0\nfunc step() { i += 1\n return i }\nfor j := 0; i < @N@; step() { x = 1 }\nx",
+    "x := 0\ni := 0\nfunc step() { i += 1\n return i }\nfor j := 0; i < @N@; step() { if i % 2 == 0 { continue }\n x = 1 }\nx",
+    "x := 0\nfor i := 0; i < @N@; i += 1 { a, b := [i, 2]\n x = b }\nx",
+    "x := 0\nfor i := 0; i < @N@; i++ { try(func() { a, b := [1, 2, 3]\n x = 9 })\n x = 2 }\nx",
+    "x := 0\nfor i := 0; i < @N@; i++ { try(func() { error(\"e\") })\n x = 2 }\nx",
+    "x := 0\nc := chan(1)\nfor i := 0; i < @N@; i++ { c <- i\n x = <-c }\nx >= 0",
+    "x := 0\nfor i := 0; i < @N@; i++ { x = [1, 2, 3][1:][0] + len(\"ab\"[0:1]) }\nx",
+    "x := 0\nfor i := 0; i < @N@; i++ { l := [i]\n l[0] += 1\n l[0] = l[0] + 1\n x = 1 in l ? 1 : 2 }\nx > 0",
 ]
 
 
